@@ -164,6 +164,15 @@ def run_check(prop, tier, seed):
         if not lc["ok"]:
             pl["ok"] = False
             pl["problems"].append({"kind": "leanchecker", "detail": lc["detail"]})
+    # ---- change-directed budget: which indicator kinds / core files differ from the recorded baseline (never an alarm by itself)
+    from . import changed
+    from .oracles import common as ocm
+
+    try:
+        focus_kinds, core_changed, changed_units = changed.focus()
+    except Exception:
+        focus_kinds, core_changed, changed_units = set(), False, {}
+    ocm.FOCUS = set(focus_kinds)
     # ---- tie leg
     tie = []
     tie_ok = True
@@ -188,11 +197,25 @@ def run_check(prop, tier, seed):
             tie.append(r)
             if r["disagreements"]:
                 tie_ok = False
+    # extra correspondence scenarios for the changed indicator kinds, when the property's scope contains indicator components
+    scope_entries = (prop.SCOPE or scopes.SCOPES.get(pid, []))
+    if focus_kinds and any(str(e[0]).startswith("ind") for e in scope_entries):
+        from . import specs as _specs
+
+        for k in sorted(x for x in focus_kinds if x in _specs.KINDS):
+            try:
+                r = corr.run_component(f"ind:{k}", seed, 150 * BUDGET, 50)
+            except Exception:
+                continue
+            r["seed"], r["size"] = seed, 50
+            tie.append(r)
+            if r["disagreements"]:
+                tie_ok = False
     # ---- oracle leg (always; concentrated when something broke)
     ctx = {
         "seed": seed,
         "tier": tier,
-        "boost": BUDGET * (1 if (pl["ok"] and tie_ok) else 2),
+        "boost": BUDGET * (1 if (pl["ok"] and tie_ok) else 2) * (2 if (core_changed and pl["ok"] and tie_ok) else 1),
         "broken": [r["component"] for r in tie if r["disagreements"]],
     }
     orc = prop.oracle(ctx)
@@ -301,6 +324,7 @@ def run_check(prop, tier, seed):
             ],
             "oracle": {k: orc[k] for k in ("evaluations", "distinct_nontrivial") if k in orc},
             "distribution": {**dist, **{f"oracle:{k}": v for k, v in orc.get("distribution", {}).items()}},
+            "changed_since_baseline": {k: v[:6] for k, v in list(changed_units.items())[:12]},
             "known_findings_reported": sorted(known_hits),
             "corpus_witnesses_replayed": corpus_n,
             "partial": getattr(prop, "PARTIAL", ""),
